@@ -146,8 +146,55 @@ def run_for(prop, root="/repo", jobs=16, verbose=True, only=None, want_info=Fals
         return (0, {"variants": 0}) if want_info else 0
     bad = 0
     skipped = 0
+    # Memo of variant verdicts.  The key covers everything a verdict depends on: every file of the analyser, the variant itself
+    # (its JSON entry and, for patch variants, the patch text) and every source file of the repository under test.  Only "ok"
+    # outcomes are remembered; anything else is always recomputed.  Any change to the analyser, a variant or the repository
+    # empties the memo.  SA_SELFTEST_NOCACHE=1 ignores it.
+    import hashlib
+
+    def _digest_tree(base, pats):
+        h = hashlib.sha1()
+        for pat in pats:
+            for f in sorted(Path(base).glob(pat)):
+                if f.is_file() and "__pycache__" not in f.parts:
+                    h.update(str(f.relative_to(base)).encode())
+                    h.update(f.read_bytes())
+        return h.hexdigest()
+
+    sa_d = _digest_tree(HERE, ["*.py", "rules/*.py", "*.json"])
+    repo_d = _digest_tree(root, ["src/**/*.py", "pyproject.toml"])
+    cache_f = VERIF / "selftest" / "cache" / f"{prop}.json"
+    try:
+        cache = json.loads(cache_f.read_text()) if not os.environ.get("SA_SELFTEST_NOCACHE") else {}
+    except Exception:
+        cache = {}
+    if cache.get("_sa") != sa_d or cache.get("_repo") != repo_d:
+        cache = {"_sa": sa_d, "_repo": repo_d}
+
+    def _vkey(v):
+        h = hashlib.sha1(json.dumps(v, sort_keys=True).encode())
+        if v.get("patch") and (VERIF / v["patch"]).exists():
+            h.update((VERIF / v["patch"]).read_bytes())
+        return h.hexdigest()
+
+    def _one(v):
+        k = _vkey(v)
+        hit = cache.get(k)
+        if hit is not None:
+            return v, "ok", hit + " [memo]", ""
+        res = run_variant(prop, v, root)
+        if res[1] == "ok":
+            cache[k] = res[2]
+        return res
+
     with ThreadPoolExecutor(max_workers=max(1, jobs)) as ex:
-        results = list(ex.map(lambda v: run_variant(prop, v, root), variants))
+        results = list(ex.map(_one, variants))
+    if not only:
+        try:
+            cache_f.parent.mkdir(parents=True, exist_ok=True)
+            cache_f.write_text(json.dumps(cache, indent=0, sort_keys=True) + "\n")
+        except Exception:
+            pass
     for v, status, msg, out in results:
         if status == "FAIL":
             bad += 1
@@ -165,6 +212,8 @@ def run_for(prop, root="/repo", jobs=16, verbose=True, only=None, want_info=Fals
         "breaking_detected": sum(1 for v, s_, m, o in results if v["kind"] == "break" and s_ == "ok"),
         "benign_silent": sum(1 for v, s_, m, o in results if v["kind"] == "benign" and s_ == "ok"),
         "deep_rewrites_no_false_alarm": sum(1 for v, s_, m, o in results if v["kind"] == "benign-or-noverdict" and s_ == "ok"),
+        "verdicts_from_memo": sum(1 for v, s_, m, o in results if m.endswith("[memo]")),
+        "memo_key": "sha1(analyser files) + sha1(repository sources) + sha1(variant): recomputed on any change",
         "skipped": [v["id"] for v, s_, m, o in results if s_ == "skipped"],
         "failed": [v["id"] for v, s_, m, o in results if s_ == "FAIL"],
         "ids": [f"{v['id']}[{v['kind']}{':' + v['rule'] if v.get('rule') else ''}]" for v, s_, m, o in results],
